@@ -1,11 +1,12 @@
 from functools import partial
-from typing import Callable
+from typing import Any, Callable
 
 import equinox as eqx
 from jax import numpy as jnp
 from jaxtyping import Array, ArrayLike, Bool, Float, Key
 
 from lerax.env import AbstractEnvLike, AbstractEnvLikeState
+from lerax.space import AbstractSpace
 
 from .base_wrapper import AbstractWrapper, AbstractWrapperState
 
@@ -40,6 +41,14 @@ class AbstractPureTransformRewardWrapper[
 
     env: eqx.AbstractVar[AbstractEnvLike[StateType, ActType, ObsType, MaskType]]
     func: eqx.AbstractVar[Callable[[Float[Array, ""]], Float[Array, ""]]]
+
+    @property
+    def action_space(self) -> AbstractSpace[ActType, MaskType]:
+        return self.env.action_space
+
+    @property
+    def observation_space(self) -> AbstractSpace[ObsType, Any]:
+        return self.env.observation_space
 
     def initial(self, *, key: Key[Array, ""]) -> PureTransformRewardState[StateType]:
         return PureTransformRewardState(self.env.initial(key=key))
